@@ -6,14 +6,22 @@ import FV.Model.Netlist
     frame/die/die.py                       Die.write_yaml              → `writeDie`
     frame/die/yaml_parse_die.py            parse_yaml_die, parse_die_rectangle (+ the blockage split of Die.__init__) → `readDie`
     frame/allocation/allocation.py         Allocation.write_yaml       → `writeAlloc`;  _parse_yaml_tree → `readAlloc`
+                                           (REPAIRED: the `fixed` mark of a cell is written and read back,
+                                           fixes/C19_alloc_fixed_mark.diff; the code as found: `writeAllocOrig`, `readAllocOrig`)
     frame/geometry/geometry.py             Rectangle.vector_spec       → `VRect.toY`
-    tools/netgen/netgen.py                 module_name, gen_modules, gen_grid/chain/ring/one_net/star/ring_star/htree(_rec)
+    tools/netgen/netgen.py                 module_name, gen_modules (with `--add-centers`), gen_grid/chain/ring/one_net/star/
+                                           ring_star/htree(_rec) on ANY Python int (`genRingStarI`, `genHtreeI`,
+                                           `genGridCentredI`), and `main` after argparse (`netgenMain`)
     frame/netlist/yaml_write_netlist.py    dump_yaml_namededges        → `dumpNamedEdgesOrig` (the code as found: aliasing)
                                                                         and `dumpNamedEdges` (REPAIRED, fixes/C19_namededges_alias.diff)
     tools/floorset_parser/…/manager.py     _parse_modules, _parse_connections, write_yaml_FPEF / DIEF (REPAIRED pin placement,
-                                           fixes/C19_floorset_terminal_xy.diff); compute_centroid of …/utils/utils.py
+                                           fixes/C19_floorset_terminal_xy.diff); compute_centroid of …/utils/utils.py;
+                                           from the raw arrays: the asserts of `__init__`, kinds from the placement
+                                           constraints, `alpha` from density / `weight_sum` / `compute_perimeter`
+                                           (`fsOfRaw`, `convertRaw`)
     tools/rect/rect_io.py                  get_netlist (REPAIRED zero-ratio cells), solution_to_netlist (REPAIRED: weights,
-                                           terminals, per-region areas; fixes/C19_rect_io_emitters.diff)
+                                           terminals, per-region areas; fixes/C19_rect_io_emitters.diff; its
+                                           `raise Exception` for a never-placed module: `solutionToNetlist`)
     tools/legalfloor/legalfloor.py         Model.get_netlist (REPAIRED: weights; fixes/C19_legalfloor_weights.diff)
 
   A document is the tree (`YVal`) that its text denotes; the text layer (ruamel dump / load, `str(float)`) is not modelled.
@@ -202,23 +210,42 @@ end ordered
 
 /-! ### the allocation document -/
 
-/-- one entry of `Allocation.allocations`: rectangle, ratio map, refinement depth (the run-time `fixed` mark of the
-    rectangle is not part of the document). -/
+/-- one entry of `Allocation.allocations`: rectangle, ratio map, refinement depth and the `fixed` mark of the rectangle
+    (`rect.fixed`: set by `_detect_fixed_rectangles` / inherited from the die's fixed regions; `refine`,
+    `must_be_refined`, `uniform_refinement_depth` and `griddify` skip marked cells).
+    REPAIRED (fixes/C19_alloc_fixed_mark.diff): the mark is part of the document — the code as found wrote
+    `[rect, alloc, depth?]` only and read every cell back unmarked (`Cell.toYOrig`). -/
 structure Cell (α : Type) where
   rect : VRect α
   alloc : List (String × Num α)
   depth : Nat
+  fixed : Bool := false
   deriving Inhabited
 
+/-- `KW_FIXED` -/
+def kwFixed : String := "fixed"
+
+/-- one descriptor of `Allocation.write_yaml` (REPAIRED): `[rect, alloc]`, then the depth when the cell is refined or
+    fixed, then the mark `fixed` when the rectangle is fixed. -/
 def Cell.toY (c : Cell α) : YVal α :=
+  .seq ([c.rect.toY, .map (c.alloc.map fun kv => (.str kv.1, YVal.ofNum kv.2))]
+        ++ (if c.depth > 0 ∨ c.fixed = true then [.int (c.depth : Int)] else [])
+        ++ (if c.fixed then [.str kwFixed] else []))
+
+/-- the descriptor the code AS FOUND wrote: the mark is dropped. -/
+def Cell.toYOrig (c : Cell α) : YVal α :=
   .seq ([c.rect.toY, .map (c.alloc.map fun kv => (.str kv.1, YVal.ofNum kv.2))]
         ++ (if c.depth > 0 then [.int (c.depth : Int)] else []))
 
-/-- `Allocation.write_yaml`. -/
+/-- `Allocation.write_yaml` (REPAIRED). -/
 def writeAlloc (cells : List (Cell α)) : YVal α × List (Cell α) :=
   (.seq (cells.map Cell.toY), cells)
 
-inductive AErr | root | cell | depth | rect | allocs | entry | dup
+/-- `Allocation.write_yaml` AS FOUND. -/
+def writeAllocOrig (cells : List (Cell α)) : YVal α × List (Cell α) :=
+  (.seq (cells.map Cell.toYOrig), cells)
+
+inductive AErr | root | cell | depth | rect | allocs | entry | dup | mark
   deriving DecidableEq, Repr, Inhabited
 
 section ordered
@@ -252,29 +279,53 @@ def parseCellRect (r : YVal α) : Except AErr (VRect α) :=
   | .ok n => .ok { cx := n.cx, cy := n.cy, w := n.w, h := n.h, region := n.region }
   | .error _ => .error .rect
 
+/-- `alloc[3] == KW_FIXED` (REPAIRED reader: the optional fourth entry of a descriptor). -/
+def parseMark (v : YVal α) : Except AErr Bool :=
+  match v with
+  | .str s => if s = kwFixed then .ok true else .error .mark
+  | _ => .error .mark
+
 def parseCell (c : YVal α) : Except AErr (Cell α) :=
-  let core (r allocs : YVal α) (depth : Except AErr Nat) : Except AErr (Cell α) :=
+  let core (r allocs : YVal α) (depth : Except AErr Nat) (mark : Except AErr Bool) : Except AErr (Cell α) :=
     match depth with
     | .error e => .error e
     | .ok d =>
-      match parseCellRect r with
+      match mark with
       | .error e => .error e
-      | .ok rect =>
-        match allocs with
-        | .map l =>
-          match amapE parseEntry l with
-          | .error e => .error e
-          | .ok es => if nodupB (es.map (·.1)) then .ok { rect := rect, alloc := es, depth := d } else .error .dup
-        | _ => .error .allocs
+      | .ok fx =>
+        match parseCellRect r with
+        | .error e => .error e
+        | .ok rect =>
+          match allocs with
+          | .map l =>
+            match amapE parseEntry l with
+            | .error e => .error e
+            | .ok es =>
+              if nodupB (es.map (·.1)) then .ok { rect := rect, alloc := es, depth := d, fixed := fx } else .error .dup
+          | _ => .error .allocs
   match c with
-  | .seq [r, a] => core r a (.ok 0)
-  | .seq [r, a, d] => core r a (parseDepth d)
+  | .seq [r, a] => core r a (.ok 0) (.ok false)
+  | .seq [r, a, d] => core r a (parseDepth d) (.ok false)
+  | .seq [r, a, d, m] => core r a (parseDepth d) (parseMark m)
+  | _ => .error .cell
+
+/-- the reader AS FOUND: two or three entries, every rectangle unmarked. -/
+def parseCellOrig (c : YVal α) : Except AErr (Cell α) :=
+  match c with
+  | .seq [_, _] => parseCell c
+  | .seq [_, _, _] => parseCell c
   | _ => .error .cell
 
 /-- `Allocation._parse_yaml_tree`. -/
 def readAlloc (t : YVal α) : Except AErr (List (Cell α)) :=
   match t with
   | .seq l => amapE parseCell l
+  | _ => .error .root
+
+/-- `Allocation._parse_yaml_tree` AS FOUND. -/
+def readAllocOrig (t : YVal α) : Except AErr (List (Cell α)) :=
+  match t with
+  | .seq l => amapE parseCellOrig l
   | _ => .error .root
 
 end ordered
@@ -445,6 +496,72 @@ def genHtree (area : Num α) (nlevels : Nat) : Option (GenOut α) :=
 
 end htree
 
+/-! #### netgen on ANY Python int, and its command line
+
+  `range` of a non-positive bound is empty, so a negative size behaves as 0 — except in the names `gen_ring_star` builds
+  outside its loops (`module_name(n - 1)`), in `gen_htree_rec`'s `assert nlevels > 0`, and in the division
+  `die_shape.h / rows` of `gen_modules` with centres (rows = 0 raises `ZeroDivisionError`; rows < 0 does not). -/
+
+/-- `module_name(i)` for any int: `"M%d" % i`. -/
+def modNameI (i : Int) : String := "M" ++ toString i
+
+inductive GenErr | assertion | zeroDiv
+  deriving DecidableEq, Repr, Inhabited
+
+def genRingStarI (area : Num α) (n : Int) : GenOut α :=
+  if 0 ≤ n then genRingStar area n.toNat
+  else { modules := genModules area 0 0, nets := [pair (modNameI (n - 1)) (modName 1)] }
+
+def genHtreeI [Mul α] [NatCast α] (area : Num α) (n : Int) : Option (GenOut α) :=
+  if n ≤ 0 then none else genHtree area n.toNat
+
+section centresI
+variable [Add α] [Mul α] [Div α] [NatCast α]
+
+/-- `gen_grid(rows, columns, area, add_centers=True, sd, die_shape)` on any ints; `die = none` is `die_shape=None`. -/
+def genGridCentredI (area : Num α) (rows columns : Int) (die : Option (α × α)) (noise : List α) :
+    Except GenErr (GenOut α) :=
+  if columns ≤ 0 then .ok (genGrid area rows.toNat 0)          -- chain-named modules, no centre loop, no nets
+  else match die with
+    | none => .error .assertion                                  -- `assert die_shape is not None`
+    | some (W, H) =>
+      if rows = 0 then .error .zeroDiv                           -- `y_offset = die_shape.h / rows`
+      else .ok (genGridCentred area rows.toNat columns.toNat W H noise)
+
+/-- the options `main` reads after `argparse`: type (one of the seven choices), sizes, `--add-centers`, the standard
+    deviation (`--add-noise`, 0 when absent), the die shape `Die(options['die'])` gave (`none`: no `--die`), and the
+    gaussian draws `random.gauss` will return. -/
+structure NgOpts (α : Type) where
+  type : String
+  size : List Int
+  addCenters : Bool
+  sd : α
+  die : Option (α × α)
+  noise : List α
+
+/-- `netgen.main` up to the dump: the data it writes, or the exception it raises. -/
+def netgenMain [LT α] [DecidableLT α] (o : NgOpts α) : Except GenErr (GenOut α) :=
+  let area : Num α := .i 1
+  if (o.type = "grid" ∧ o.size.length ≠ 2) ∨ (o.type ≠ "grid" ∧ o.size.length ≠ 1) then .error .assertion
+  else if o.addCenters ∧ o.type ≠ "grid" then .error .assertion
+  else if o.addCenters ∧ o.die.isNone then .error .assertion
+  else if o.addCenters ∧ o.sd < ((0 : Nat) : α) then .error .assertion
+  else
+    let n : Int := o.size.headD 0
+    match o.type with
+    | "grid" =>
+      let c : Int := (o.size.drop 1).headD 0
+      if o.addCenters then genGridCentredI area n c o.die o.noise else .ok (genGrid area n.toNat c.toNat)
+    | "chain" => .ok (genChain area n.toNat)
+    | "ring" => .ok (genRing area n.toNat)
+    | "star" => .ok (genStar area n.toNat)
+    | "ring-star" => .ok (genRingStarI area n)
+    | "one-net" => .ok (genOneNet area n.toNat)
+    | "htree" => match genHtreeI area n with | some g => .ok g | none => .error .assertion
+    | _ => .error .assertion                                     -- `assert False  # Should never happen`
+
+end centresI
+
 /-! ### `dump_yaml_namededges` -/
 
 /-- a `NamedHyperEdge`: the Python list `modules` (names; after the defect also numbers) and the weight. -/
@@ -531,8 +648,9 @@ def termName (i : Nat) : String := "T" ++ toString i
 
 def enum {β : Type} (l : List β) : List (Nat × β) := (List.range l.length).zip l
 
-/-- exceptions of the converter other than `AssertionError`. -/
-inductive FsErr | valueError
+/-- exceptions of the converter: `max()` of an empty sequence, the `assert`s of `__init__`, a zero perimeter / zero
+    maximal weight density in `_parse_connections`. -/
+inductive FsErr | valueError | assertion | zeroDiv
   deriving DecidableEq, Repr, Inhabited
 
 /-- the `_modules` dictionary `_parse_modules` builds once the die shape `(shapeX, shapeY)` is known. -/
@@ -570,6 +688,108 @@ def writeDIEF (f : FsInst α) : Except FsErr (YVal α) :=
   match fsShape f with
   | .error e => .error e
   | .ok s => .ok (.map [(.str "width", .float s.1), (.str "height", .float s.2)])
+
+/-! #### the converter from the raw (numpy) arrays: validation, kinds, weight normalisation
+
+  `FloorSetInstance.__init__` — the `assert`s on the arrays and on the density, `_parse_modules` (kind of a block from its
+  placement constraints; the polygon decomposition `strop_decomposition` of property C15 stays an input), and
+  `_parse_connections` (the normalisation factor `alpha = density / max_b (weight_sum(b) / perimeter(b))`, where the
+  perimeter is taken over the UNFILTERED vertex rows, padding included, exactly as the code does). -/
+
+/-- the raw arrays, as lists: block and pin indices of the connectivity arrays as naturals (`int(b1)`). -/
+structure FsRaw (α : Type) where
+  areaBlocks : List α
+  b2b : List (Nat × Nat × α)
+  p2b : List (Nat × Nat × α)
+  pins : List (α × α)
+  cons : List (List α)                        -- `placement_constraints` rows
+  vertices : List (List (α × α))              -- `vertex_blocks` rows, padding `(-1, -1)` included
+  metrics : List α
+  density : Option α
+  terminalsAsModules : Bool
+  decomp : List (List (α × α × α × α))        -- `strop_decomposition(vertices)` of every block (C15), an input
+  deriving Inhabited
+
+/-- `assert not (arr < 0).any()` for the six checked arrays. -/
+def fsValidate (r : FsRaw α) : Bool :=
+  r.areaBlocks.all (fun x => !decide (x < (zero : α))) &&
+  r.b2b.all (fun e => !decide (e.2.2 < (zero : α))) &&
+  r.p2b.all (fun e => !decide (e.2.2 < (zero : α))) &&
+  r.pins.all (fun p => !decide (p.1 < (zero : α)) && !decide (p.2 < (zero : α))) &&
+  r.cons.all (fun row => row.all fun x => !decide (x < (zero : α))) &&
+  r.metrics.all (fun x => !decide (x < (zero : α)))
+
+/-- `if density: assert isinstance(density, float) and 0 <= density <= 1` (a float or `None` is handed over): the density
+    that `_parse_connections` will use, `none` when it is falsy. -/
+def fsDensity (d : Option α) : Except FsErr (Option α) :=
+  match d with
+  | none => .ok none
+  | some x =>
+    if x = (zero : α) then .ok none
+    else if (zero : α) ≤ x ∧ x ≤ (one : α) then .ok (some x) else .error .assertion
+
+/-- kind of a block from its `placement_constraints` row: `[1]` pre-placed → fixed (2), `[0]` fixed → hard (1), else soft. -/
+def fsKindOf (row : List α) : Nat :=
+  if row.getD 1 (zero : α) ≠ (zero : α) then 2 else if row.getD 0 (zero : α) ≠ (zero : α) then 1 else 0
+
+/-- `weight_sum(b2b, p2b, target)`: the b2b rows that name the block at either end, plus the p2b rows that name it. -/
+def fsWeightSum (r : FsRaw α) (id : Nat) : α :=
+  ((r.b2b.filter fun e => e.1 = id ∨ e.2.1 = id).map (·.2.2)).foldl (· + ·) (zero : α)
+  + ((r.p2b.filter fun e => e.2.1 = id).map (·.2.2)).foldl (· + ·) (zero : α)
+
+/-- `compute_perimeter(vertex_blocks[b])`: consecutive rows, open chain, padding rows included. -/
+def fsPerimeter (sqrt : α → α) (vs : List (α × α)) : α :=
+  (vs.zip vs.tail).foldl (fun acc pq =>
+    acc + sqrt ((pq.2.1 - pq.1.1) * (pq.2.1 - pq.1.1) + (pq.2.2 - pq.1.2) * (pq.2.2 - pq.1.2))) (zero : α)
+
+/-- the loop of `_parse_connections` (`max_f = -1` initially) and `alpha = d / max_f`. -/
+def fsAlpha (sqrt : α → α) (r : FsRaw α) (d : α) : Except FsErr α :=
+  let step (acc : Except FsErr α) (id : Nat) : Except FsErr α :=
+    match acc with
+    | .error e => .error e
+    | .ok mx =>
+      let per := fsPerimeter sqrt (r.vertices.getD id [])
+      if per = (zero : α) then .error .zeroDiv
+      else
+        let f := fsWeightSum r id / per
+        .ok (if mx < f then f else mx)
+  match (List.range r.areaBlocks.length).foldl step (.ok (-(one : α))) with
+  | .error e => .error e
+  | .ok mx => if mx = (zero : α) then .error .zeroDiv else .ok (d / mx)
+
+/-- the blocks `_parse_modules` builds. -/
+def fsBlocksOf (r : FsRaw α) : List (FsBlock α) :=
+  (List.range r.areaBlocks.length).map fun i =>
+    { kind := fsKindOf (r.cons.getD i []), area := r.areaBlocks.getD i (zero : α), rects := r.decomp.getD i [] }
+
+/-- `FloorSetInstance(data, density, terminals_as_modules)`: the instance, or the exception of the constructor, in the
+    order the constructor raises them (array asserts, density assert, `max()` of no pins, then the divisions). -/
+def fsOfRaw (sqrt : α → α) (r : FsRaw α) : Except FsErr (FsInst α) :=
+  if !fsValidate r then .error .assertion else
+  match fsDensity r.density with
+  | .error e => .error e
+  | .ok d =>
+    let inst0 : FsInst α := { blocks := fsBlocksOf r, pins := r.pins, terminalsAsModules := r.terminalsAsModules,
+                              alpha := (one : α), b2b := r.b2b, p2b := r.p2b }
+    match fsShape inst0 with
+    | .error e => .error e
+    | .ok _ =>
+      match d with
+      | none => .ok inst0
+      | some x =>
+        match fsAlpha sqrt r x with
+        | .error e => .error e
+        | .ok a => .ok { inst0 with alpha := a }
+
+/-- constructor, then `write_yaml_FPEF()` and `write_yaml_DIEF()`. -/
+def convertRaw (eps : α) (sqrt : α → α) (r : FsRaw α) : Except FsErr (YVal α × YVal α) :=
+  match fsOfRaw sqrt r with
+  | .error e => .error e
+  | .ok f =>
+    match writeFPEF eps f, writeDIEF f with
+    | .ok t, .ok d => .ok (t.1, d)
+    | .error e, _ => .error e
+    | _, .error e => .error e
 
 end fs
 
@@ -649,6 +869,15 @@ def solNetY (e : List String × α) : YVal α :=
 
 def solTree (ms : List (SolMod α)) (es : List (List String × α)) : YVal α :=
   .map [(.str "Modules", .map (ms.map fun m => (.str m.name, solModInfo m))), (.str "Nets", .seq (es.map solNetY))]
+
+/-- exceptions of `solution_to_netlist`. -/
+inductive SolErr | exception
+  deriving DecidableEq, Repr, Inhabited
+
+/-- `solution_to_netlist(netlist, result)` including its refusal: a module that is not in `result`, has no rectangle and
+    no centre (`none` here) makes it `raise Exception("I don't know what to do with module …")` — nothing is produced. -/
+def solutionToNetlist (ms : List (Option (SolMod α))) (es : List (List String × α)) : Except SolErr (YVal α) :=
+  if ms.any Option.isNone then .error .exception else .ok (solTree (ms.filterMap id) es)
 
 /-- a module of the legalisation model: name, degree (0 soft / 1 hard / 2 fixed), original area, evaluated rectangles. -/
 structure LfMod (α : Type) where
